@@ -21,6 +21,7 @@ def build_registry() -> Registry:
     from . import mbox_c
 
     mbox_c.declare_recovery(reg)
+    mbox_c.declare_store(reg)
     from ._props import PROPS
 
     for pid, info in PROPS.items():
